@@ -386,6 +386,7 @@ type tokenSched struct {
 	trace   []string
 	report  chan int64 // a goroutine arrived at a yield point / finished
 	blocked int
+	free    bool // the scheduler has stopped: every further yield point passes through
 }
 
 func newTokenSched(rng *rand.Rand) *tokenSched {
@@ -410,7 +411,7 @@ func (t *tokenSched) yield(point string) {
 	g := rt.Goid()
 	t.mu.Lock()
 	ch, ok := t.turn[g]
-	if !ok {
+	if !ok || t.free {
 		t.mu.Unlock()
 		return
 	}
@@ -550,18 +551,23 @@ func runC09Sched(c *eng.Ctx, next func() (int, bool)) {
 		ok := ts.run(len(prog.threads), 40*time.Millisecond, 60*time.Second)
 		done := make(chan struct{})
 		go func() { wg.Wait(); close(done) }()
-		if !ok {
-			// release everybody and see whether they are really stuck
-			ts.mu.Lock()
-			for g, ch := range ts.turn {
-				if ts.state[g] != "done" {
-					select {
-					case ch <- struct{}{}:
-					default:
-					}
+		// the scheduler has stopped (schedule complete, or nothing could make progress within its
+		// bounds - a goroutine that the machine left unscheduled for seconds looks like that too):
+		// from here on every yield point passes through, and whoever is parked is released, so that
+		// only goroutines that are really stuck inside godi stay behind
+		ts.mu.Lock()
+		ts.free = true
+		for g, ch := range ts.turn {
+			if ts.state[g] != "done" {
+				select {
+				case ch <- struct{}{}:
+				default:
 				}
 			}
-			ts.mu.Unlock()
+		}
+		ts.mu.Unlock()
+		if !ok {
+			c.R.Count("controlled_schedules_released_early", 1)
 		}
 		r.Rec.SetHook(nil)
 		if v := awaitOrDiagnose(done, 30*time.Second); !v.Done {
